@@ -1,1 +1,3 @@
+pub mod catalog;
+pub mod sql;
 pub mod types;
